@@ -159,6 +159,11 @@ func (c *Cmd) StdinPipe() (io.WriteCloser, error) {
 	if c.started {
 		return nil, errors.New("exec: StdinPipe after process started")
 	}
+	if kern.Active() && !kern.Aborting() {
+		if r := kern.Call(kern.Req{Op: kern.OpPipeOpen}); r.Status != 0 {
+			return nil, &fs.PathError{Op: "pipe", Path: "|0", Err: syscall.Errno(r.Status)}
+		}
+	}
 	c.pipe = &stdinPipe{c: c}
 	c.Stdin = pipeMarker{}
 	return c.pipe, nil
@@ -195,6 +200,9 @@ func (c *Cmd) Start() error {
 	if c.Stdout != nil && c.Stdout == c.Stderr {
 		flags |= 2
 	}
+	if c.pipe != nil {
+		flags |= 4
+	}
 	argv := append([]string{c.Path}, c.Args[min(1, len(c.Args)):]...)
 	if c.Dir != "" && !strings.HasPrefix(c.Path, "/") && strings.Contains(c.Path, "/") {
 		// like os/exec: a relative program path is resolved against Cmd.Dir. The simulated tools
@@ -206,6 +214,9 @@ func (c *Cmd) Start() error {
 		}
 		if kern.CleanPath(dir) != kern.CleanPath(kern.Cwd()) {
 			kern.Call(kern.Req{Op: kern.OpNote, S: "exec: " + c.Path + " not found relative to " + c.Dir})
+			if c.pipe != nil {
+				kern.Call(kern.Req{Op: kern.OpPipeOpen, A: -1})
+			}
 			c.finished = true
 			return &fs.PathError{Op: "fork/exec", Path: c.Path, Err: syscall.ENOENT}
 		}
